@@ -6,11 +6,11 @@ func init() {
 	scenarios["cdp"] = &Scenario{
 		Name: "cdp", NActors: cdpActors, Draw: drawCdpConfig,
 		Setup: func(w *World) { setupCdp(w); w.warmOracle() },
-		Gens:  func(w *World) []OpGen { return append(cdpGens(), liqGens()...) },
+		Gens:  func(w *World) []OpGen { return append(append(cdpGens(), liqGens()...), auxGens()...) },
 		PBlock: 220,
 	}
 
-	cdpGensAll := func(w *World) []OpGen { return append(cdpGens(), liqGens()...) }
+	cdpGensAll := func(w *World) []OpGen { return append(append(cdpGens(), liqGens()...), auxGens()...) }
 	scenarios["cdp+export"] = &Scenario{
 		Name: "cdp+export", NActors: cdpActors, Draw: drawCdpConfig,
 		Setup: func(w *World) { setupCdp(w); w.warmOracle() },
